@@ -27,7 +27,7 @@ def first_index(s):
 
 def standard(ctx, props, harness=None, obl=None, cases=None, trusted=(), assumptions=(), unproved=None,
              pkg="cmd/keymasterd", race=False, checker=None, timeout=1500, env=None, extra_gen=(), extra_overlay=None,
-             model_oracles=(), violating=None):
+             model_oracles=(), violating=None, post_cases=None):
     """props: list of (module, [theorems]); harness: (test name, [files]); obl: (file, [names]);
        cases: (file, [(definition name, label)], idx file or None);
        model_oracles: [(definition name, oracle key, what, idx file)] - lists printed by the case file that hold
@@ -35,7 +35,9 @@ def standard(ctx, props, harness=None, obl=None, cases=None, trusted=(), assumpt
        (the conclusion of the soundness theorem evaluated on the observed output): each index becomes an
        oracle hit, so that the VIOLATION line carries the failing input;
        violating: [(definition name, class, idx file)] - the same with the key built as `Cxx:model-oracle:<class>`.
-       A key may be a function of the case's idx line (it must return a stable shape name)"""
+       A key may be a function of the case's idx line (it must return a stable shape name);
+       post_cases(ctx, res): called with the printed definitions of the case file (name -> text) after the
+       mismatch lists were read"""
     model_oracles = list(model_oracles) + [(n, "%s:model-oracle:%s" % (ctx.pid, k), "the observed output violates the property predicate as evaluated in Coq (the implementation is more permissive than the specification)", f) for n, k, f in (violating or [])]
     for mod, thms in props:
         ctx.audit(mod, thms)
@@ -81,6 +83,8 @@ def standard(ctx, props, harness=None, obl=None, cases=None, trusted=(), assumpt
                     line = lines[i] if i < len(lines) else "case %d" % i
                     ctx.hits.append({"key": key(line) if callable(key) else key, "oracle": "model-oracle: " + name, "what": what,
                                      "case": line})
+            if post_cases:
+                post_cases(ctx, res)
     ctx.assumptions = list(assumptions)
     return ctx.finish(checker or ("bin/build-coq; coqc Audit_*/Obl_*/Cases* (lib/core.py); go test -overlay " + (harness[0] if harness else "")),
                       COMMON_TRUSTED + list(trusted), unproved)
